@@ -353,6 +353,9 @@ def hook_symnco(model, mon):
         if B * A * S != N:
             mon.v("rows", f"{N} rollout rows for B x A x S = ? x {A} x {S}")
             return res
+        # the documented weights as CONFIGURED for this case (defaults: alpha 0.2, beta 1), not as stored on the object
+        beta_cfg = mon.case.get("sym_beta", 1.0)
+        alpha_cfg = mon.case.get("sym_alpha", 0.2)
         # ground truth layout: augmentation first (rows a*B+b), then starts (rows s*(A*B) + a*B + b)
         Rg = R.reshape(S, A, B)
         LLg = LL.reshape(S, A, B)
@@ -360,7 +363,7 @@ def hook_symnco(model, mon):
         if S > 1:
             ref = ref + (-((Rg - Rg.mean(0, keepdim=True)) * LLg).mean())
         if A > 1:
-            ref = ref + model.beta * (-((Rg - Rg.mean(1, keepdim=True)) * LLg).mean())
+            ref = ref + beta_cfg * (-((Rg - Rg.mean(1, keepdim=True)) * LLg).mean())
             # invariance term (L_inv of the SymNCO paper): cosine similarity between the projected embeddings of the SAME
             # instance under augmentation 0 and augmentation a, summed over a >= 1, averaged over instances and nodes. The
             # augmented batch is laid out copy-major (row a*B + b is copy a of instance b), which is what the monitor uses
@@ -368,12 +371,12 @@ def hook_symnco(model, mon):
             if pe.shape[0] == A * B:
                 peg = pe.reshape(A, B, *pe.shape[1:])
                 sim = sum(torch.nn.functional.cosine_similarity(peg[0], peg[a], dim=-1) for a in range(1, A))
-                ref = ref + model.alpha * sim.mean()
+                ref = ref + alpha_cfg * sim.mean()
                 mon.ctx.count("c16_symnco_invariance_terms")
             else:
                 from rl4co.models.zoo.symnco.losses import invariance_loss
 
-                ref = ref + model.alpha * invariance_loss(pe, A)
+                ref = ref + alpha_cfg * invariance_loss(pe, A)
         mon.sig = dict(mon.sig, S_gt_1=S > 1, A_gt_1=A > 1, S_eq_A=(S == A))
         mon.compare(res["loss"], ref, params_of(model.policy), what="SymNCO loss", ll=LL)
         mon.ctx.nontrivial_case(dict(c=mon.case, step=mon.step))
@@ -539,7 +542,14 @@ def case(ctx, case):
     elif kind == "symnco":
         pol = policies.make("symnco", env, seed=seed % 7)
         pol.train()
-        model = M.SymNCO(env, pol, num_starts=case.get("S", 0), num_augment=case.get("A", 4), **kw)
+        sk = {}
+        if case.get("sym_beta") is not None:
+            sk["beta"] = case["sym_beta"]
+        if case.get("sym_alpha") is not None:
+            sk["alpha"] = case["sym_alpha"]
+        if sk:
+            mon.sig = dict(mon.sig, sym_weights="custom")
+        model = M.SymNCO(env, pol, num_starts=case.get("S", 0), num_augment=case.get("A", 4), **sk, **kw)
         hook_symnco(model, mon)
         hook_after_backward(model, mon, "SymNCO loss")
     elif kind == "ppo":
